@@ -2,7 +2,7 @@
     import/merge, open/close, removal, replica writes, per-document settings (useful peers,
     download policy), author heads and news detection, content hashes, reopen.
     No proofs in this file. *)
-From ID Require Export Model.Ranger Model.Policy.
+From ID Require Export Model.Ranger Model.Policy Model.Query.
 
 Record sstate := mkS { s_tables : tables; s_open : list N; s_clock : N (* peer-registration clock *) }.
 Definition sinit : sstate := mkS empty_tables [] 1.
@@ -28,6 +28,8 @@ Inductive sop :=
   | SListNamespaces
   | SGetAll (ns : N)
   | SReopen
+  | SWipeReopen (latest bykey : bool)                    (* delete derived tables in the file (as an older version's database lacks them), reopen *)
+  | SQuery (ns : N) (q : query)
   | SMatches (p : policy) (k : bytes)                   (* DownloadPolicy::matches *)
   | SFilterText (f : filter_kind) (is_utf8 : bool)       (* to_string, then parse back *)
   | SFilterParse (t : bytes).                            (* FromStr on arbitrary text *)
@@ -138,6 +140,29 @@ Section StoreOps.
                                        | None => true
                                        end) theirs)).
 
+  (** store/fs/migrations.rs. 001: if the head table is empty and there are records, rebuild it:
+      per (namespace, author) the greatest timestamp, the last such row in key order on ties.
+      004: if the by-key index is empty, rebuild it from the records. *)
+  Definition migrate_latest (T : tables) : tables :=
+    match t_latest T, t_records T with
+    | [], _ :: _ =>
+        set_latest T
+          (fold_left (fun acc r =>
+                        let '((ns, au, k), (ts, _, _)) := r in
+                        match tbl_get pair_cmp (ns, au) acc with
+                        | Some (t0, _) => if t0 <=? ts then tbl_insert pair_cmp (ns, au) (ts, k) acc else acc
+                        | None => tbl_insert pair_cmp (ns, au) (ts, k) acc
+                        end) (t_records T) [])
+    | _, _ => T
+    end.
+  Definition migrate_bykey (T : tables) : tables :=
+    match t_bykey T with
+    | [] => set_bykey T (fold_left (fun acc r => let '((ns, au, k), _) := r in tbl_insert kid_cmp (ns, k, au) tt acc)
+                                   (t_records T) [])
+    | _ => T
+    end.
+  Definition open_store (T : tables) : tables := migrate_bykey (migrate_latest T).
+
   Definition writable (T : tables) (ns : N) : option bool :=
     match get_cap T ns with Some (Some _) => Some true | Some None => Some false | None => None end.
 
@@ -189,7 +214,12 @@ Section StoreOps.
     | SListNamespaces =>
         (s, RNamespaces (map (fun r => (fst r, match snd r with Some _ => true | None => false end)) (t_namespaces T)))
     | SGetAll ns => (s, REntries (fs_all ns T))
-    | SReopen => (mkS T [] (s_clock s), RUnit)
+    | SReopen => (mkS (open_store T) [] (s_clock s), RUnit)
+    | SWipeReopen l b =>
+        let T1 := if l then set_latest T [] else T in
+        let T2 := if b then set_bykey T1 [] else T1 in
+        (mkS (open_store T2) [] (s_clock s), RUnit)
+    | SQuery ns q => (s, REntries (run_query key_succ EH T ns q))
     | SMatches p k => (s, RBool (policy_matches p k))
     | SFilterText f u => (s, RText (filter_display u f) (filter_parse (filter_display u f)))
     | SFilterParse t => (s, RFilter (filter_parse t))
